@@ -28,19 +28,21 @@ InDom(cfg, st) == IF cfg.kind = "in" THEN [trig : {0, 1}, data : {1, 2}] ELSE [t
 \* age: cycles since reset (saturating at 2); treg: synchroniser register; old: previous
 \* active level (edge register, reset value = inactive-before-reset as in the code: a raw 0);
 \* dreg: synchronised data; out: output register (-1 = never written)
-CInit(cfg) == [age |-> 0, treg |-> 0, old |-> ~cfg.pol, dreg |-> -1, out |-> -1]
+CInit(cfg) == [age |-> 0, treg |-> 0, old |-> ~cfg.pol, dreg |-> 0, out |-> -1]
 
 Delay(cfg) == B(cfg.sync)
 \* number of initial cycles in which the property does not define readiness
 Blind(cfg) == Delay(cfg) + B(cfg.edge)
 Unspec(cfg, st, m) == st.age < Blind(cfg)
+\* the data returned by a synchronised get in the first cycle predates the reset
+ResAny(cfg, st, m) == m = "get" /\ cfg.sync /\ st.age = 0
 
 Raw(cfg, st, inp) == IF cfg.sync THEN st.treg ELSE inp.trig
 Level(cfg, st, inp) == (Raw(cfg, st, inp) = B(cfg.pol))
 Active(cfg, st, inp) == IF cfg.edge THEN Level(cfg, st, inp) /\ ~st.old ELSE Level(cfg, st, inp)
 
 Callable(cfg, st, m, arg, calls, inp) == Active(cfg, st, inp)
-Result(cfg, st, m, calls, inp) ==
+Result(cfg, st, m, calls, inp, obs) ==
   IF m = "get" THEN (IF cfg.sync THEN st.dreg ELSE inp.data) ELSE 0
 ObsSet(cfg, st, calls, inp) ==
   IF cfg.kind = "in" THEN {[none |-> 0]}
@@ -49,7 +51,7 @@ CNext(cfg, st, calls, inp, obs) ==
   [age |-> IF st.age < 2 THEN st.age + 1 ELSE 2,
    treg |-> inp.trig,
    old |-> Level(cfg, st, inp),
-   dreg |-> IF cfg.kind = "in" THEN inp.data ELSE -1,
+   dreg |-> IF cfg.kind = "in" THEN inp.data ELSE 0,
    out |-> IF "put" \in DOMAIN calls THEN calls["put"] ELSE st.out]
 Conflict(cfg, m1, m2) == FALSE
 Assume(cfg, st, calls, inp) == TRUE
